@@ -516,7 +516,7 @@ Section OwnContext.
     c_head c = c_head c' -> c_stream c = c_stream c' -> c_ver c = c_ver c' -> c_conn c = c_conn c' ->
     snd (codec_encode_item c r sz) = snd (codec_encode_item c' r sz).
   Proof.
-    intros A B C D. unfold codec_encode_item, msg_encode. cbn [snd]. rewrite A, B, C, D. reflexivity.
+    intros A B C D. unfold codec_encode_item, codec_encode_item0, stream_adjust, msg_encode. cbn [snd]. rewrite A, B, C, D. reflexivity.
   Qed.
 
   Lemma ctx_eq_head c j r sz :
@@ -552,7 +552,7 @@ Section OwnContext.
     intro H. inversion H; subst. repeat split.
   Qed.
   Lemma item_base c r sz : base_ok c -> base_ok (fst (codec_encode_item c r sz)).
-  Proof. intros [A B]. unfold codec_encode_item, msg_encode, base_ok. cbn [fst c_ka_enabled c_stream]. auto. Qed.
+  Proof. intros [A B]. unfold codec_encode_item, codec_encode_item0, msg_encode, base_ok. cbn [fst c_ka_enabled c_stream]. auto. Qed.
 
   Lemma ctx_eq_request_context c j :
     base_ok c -> ctx_eq (set_request_context c (request_context c (req_of reqs j))) (req_of reqs j).
